@@ -61,6 +61,11 @@ def ident_traj(n_frames, n_atoms, cell="ortho", f0=0, times=True, top=None):
         fr = (np.arange(n_frames) + f0)[:, None]
         t.unitcell_lengths = (np.array([[60.0, 61.0, 62.0]]) + fr * 0.125).astype(np.float32)
         t.unitcell_angles = (np.array([[80.0, 95.0, 100.0]]) + (fr % 4) * 0.5).astype(np.float32)
+    elif cell == "shear":
+        # a box sheared at constant edge lengths: the lengths of all frames are bit-identical, only the angles move
+        fr = (np.arange(n_frames) + f0)[:, None]
+        t.unitcell_lengths = np.tile(np.array([[60.0, 61.0, 62.0]], np.float32), (n_frames, 1))
+        t.unitcell_angles = (np.array([[90.0, 90.0, 90.0]]) + ((fr + 1) % 5) * np.array([[-2.0, 1.0, 1.5]])).astype(np.float32)
     return t
 
 
@@ -590,3 +595,14 @@ def write_wide_class(fmt, path, t, n, na):
     else:
         t.save(path)        # aliases, restart files, dense xtc: mdtraj's own writer
     return path
+
+
+def h5_change_units(path, field, new_units, factor):
+    """Re-express one per-frame field of an MDTraj HDF5 file in another unit: the stored numbers are multiplied by `factor`
+    and the field's `units` attribute is set to `new_units` (the format lets every field name its own unit; files from
+    other writers use angstroms, femtoseconds or radians for some fields and the defaults for others)."""
+    import tables
+    with tables.open_file(path, "r+") as h:
+        node = h.get_node("/", field)
+        node[:] = (np.asarray(node[:], np.float64) * factor).astype(node.dtype)
+        node.attrs["units"] = new_units
